@@ -13,6 +13,15 @@ def main():
         )
     import hypothesis
     import naunet
+    from pathlib import Path
+
+    deps = Path(__file__).resolve().parent.parent / ".deps"
+    if not (deps / "atheris").exists():
+        r = subprocess.run(
+            [sys.executable, "-m", "pip", "install", "--no-index", "--find-links", "/opt/veriftools/wheels", "--target", str(deps), "atheris"],
+            capture_output=True, text=True,
+        )
+        print("atheris:", "installed into .deps" if r.returncode == 0 else "NOT available (thorough-tier fuzz supplements will be skipped): " + r.stderr[-200:])
 
     print("hypothesis", hypothesis.__version__, "naunet from", naunet.__file__)
     try:
